@@ -1,7 +1,7 @@
 """Which jobs and extra checks decide which property (the sidecar's table of contents)."""
 import importlib
 
-JOB_MODULES = ["contracts.jobs_basic"]
+JOB_MODULES = ["contracts.jobs_basic", "contracts.jobs_multi"]
 CANARY = "contracts.jobs_canary"
 
 _cache = {}
